@@ -563,11 +563,11 @@ func (e *convOutExec) Exec(cmd string, a []string) string {
 	panic("unknown record " + cmd)
 }
 
-func emitMsgs(mode string, ms ...*rwp.OutboundMessage) {
+func outEmitMsgs(mode string, ms ...*rwp.OutboundMessage) {
 	emitS("eout.msgs", append([]string{mode}, printOutMsgs(ms)...))
 }
 
-func emitLines(lines ...string) {
+func outEmitLines(lines ...string) {
 	a := []string{fmt.Sprint(len(lines))}
 	for _, l := range lines {
 		a = append(a, hs(l))
@@ -931,8 +931,8 @@ func randOutMsg(r *Rng, pct int, inDomain bool, allowInvalidUTF8 bool) *rwp.Outb
 
 func genC03(r *Rng, n int, tier string) {
 	both := func(m *rwp.OutboundMessage) {
-		emitMsgs("d", m)
-		emitMsgs("c", m)
+		outEmitMsgs("d", m)
+		outEmitMsgs("c", m)
 	}
 	// flow signals (all values incl. non-protocol ones) and the empty message
 	for _, f := range []int32{0, 1, 2, 3, 4, 5, 6, 99, 100, 101, -1} {
@@ -943,14 +943,14 @@ func genC03(r *Rng, n int, tier string) {
 	for _, id := range ids {
 		for _, edge := range append(append([]int32{}, edgePool...), edgeOdd...) {
 			for _, pr := range []bool{true, false} {
-				emitMsgs("d", &rwp.OutboundMessage{Events: []*rwp.HWCEvent{{HWCID: id, Binary: &rwp.BinaryEvent{Pressed: pr, Edge: rwp.BinaryEvent_EdgeID(edge)}}}})
+				outEmitMsgs("d", &rwp.OutboundMessage{Events: []*rwp.HWCEvent{{HWCID: id, Binary: &rwp.BinaryEvent{Pressed: pr, Edge: rwp.BinaryEvent_EdgeID(edge)}}}})
 			}
 		}
 		for _, v := range i32Pool {
-			emitMsgs("d", &rwp.OutboundMessage{Events: []*rwp.HWCEvent{{HWCID: id, Pulsed: &rwp.PulsedEvent{Value: v}}, {HWCID: id, Speed: &rwp.SpeedEvent{Value: v}}}})
+			outEmitMsgs("d", &rwp.OutboundMessage{Events: []*rwp.HWCEvent{{HWCID: id, Pulsed: &rwp.PulsedEvent{Value: v}}, {HWCID: id, Speed: &rwp.SpeedEvent{Value: v}}}})
 		}
 		for _, v := range u32Pool {
-			emitMsgs("d", &rwp.OutboundMessage{Events: []*rwp.HWCEvent{{HWCID: id, Absolute: &rwp.AbsoluteEvent{Value: v}}, {HWCID: id, RawAnalog: &rwp.RawAnalogEvent{Value: v}}}})
+			outEmitMsgs("d", &rwp.OutboundMessage{Events: []*rwp.HWCEvent{{HWCID: id, Absolute: &rwp.AbsoluteEvent{Value: v}}, {HWCID: id, RawAnalog: &rwp.RawAnalogEvent{Value: v}}}})
 		}
 	}
 	// capability subsets
@@ -970,9 +970,9 @@ func genC03(r *Rng, n int, tier string) {
 	}
 	for i, mk := range masks {
 		m := &rwp.OutboundMessage{PanelInfo: &rwp.PanelInfo{RawPanelSupport: supportFromMask(mk)}}
-		emitMsgs("d", m)
+		outEmitMsgs("d", m)
 		if i%8 == 0 {
-			emitMsgs("c", m)
+			outEmitMsgs("c", m)
 		}
 	}
 	// panel types, health, single identity fields
@@ -982,23 +982,23 @@ func genC03(r *Rng, n int, tier string) {
 	}
 	for _, s := range textSamples {
 		both(&rwp.OutboundMessage{PanelInfo: &rwp.PanelInfo{Model: s}})
-		emitMsgs("d", &rwp.OutboundMessage{PanelInfo: &rwp.PanelInfo{Serial: s, Name: s}})
-		emitMsgs("d", &rwp.OutboundMessage{PanelInfo: &rwp.PanelInfo{SoftwareVersion: s, Platform: s}})
+		outEmitMsgs("d", &rwp.OutboundMessage{PanelInfo: &rwp.PanelInfo{Serial: s, Name: s}})
+		outEmitMsgs("d", &rwp.OutboundMessage{PanelInfo: &rwp.PanelInfo{SoftwareVersion: s, Platform: s}})
 	}
 	for _, b := range []bool{false, true} {
 		both(&rwp.OutboundMessage{PanelInfo: &rwp.PanelInfo{BluePillReady: b}})
 		both(&rwp.OutboundMessage{SleepState: &rwp.SleepState{IsSleeping: b}})
 	}
 	for _, v := range u32Pool {
-		emitMsgs("d", &rwp.OutboundMessage{PanelInfo: &rwp.PanelInfo{MaxClients: v}})
-		emitMsgs("d", &rwp.OutboundMessage{SleepTimeout: &rwp.SleepTimeout{Value: v}})
-		emitMsgs("d", &rwp.OutboundMessage{HeartBeatTimer: &rwp.HeartBeatTimer{Value: v}})
-		emitMsgs("d", &rwp.OutboundMessage{DimmedGain: &rwp.DimmedGain{Value: v}})
-		emitMsgs("d", &rwp.OutboundMessage{RunTimeStats: &rwp.RunTimeStats{BootsCount: v}})
-		emitMsgs("d", &rwp.OutboundMessage{RunTimeStats: &rwp.RunTimeStats{TotalUptime: v, SessionUptime: v + 1, ScreenSaveOnTime: v / 2}})
-		emitMsgs("d", &rwp.OutboundMessage{HWCavailability: map[uint32]uint32{v: 4294967295 - v}})
+		outEmitMsgs("d", &rwp.OutboundMessage{PanelInfo: &rwp.PanelInfo{MaxClients: v}})
+		outEmitMsgs("d", &rwp.OutboundMessage{SleepTimeout: &rwp.SleepTimeout{Value: v}})
+		outEmitMsgs("d", &rwp.OutboundMessage{HeartBeatTimer: &rwp.HeartBeatTimer{Value: v}})
+		outEmitMsgs("d", &rwp.OutboundMessage{DimmedGain: &rwp.DimmedGain{Value: v}})
+		outEmitMsgs("d", &rwp.OutboundMessage{RunTimeStats: &rwp.RunTimeStats{BootsCount: v}})
+		outEmitMsgs("d", &rwp.OutboundMessage{RunTimeStats: &rwp.RunTimeStats{TotalUptime: v, SessionUptime: v + 1, ScreenSaveOnTime: v / 2}})
+		outEmitMsgs("d", &rwp.OutboundMessage{HWCavailability: map[uint32]uint32{v: 4294967295 - v}})
 		for reg := 0; reg < 4; reg++ {
-			emitMsgs("d", &rwp.OutboundMessage{Registers: []*rwp.Register{{Reg: rwp.Register_RegisterE(reg), Id: []string{"A", "7", "B2", "C"}[reg], Value: v}}})
+			outEmitMsgs("d", &rwp.OutboundMessage{Registers: []*rwp.Register{{Reg: rwp.Register_RegisterE(reg), Id: []string{"A", "7", "B2", "C"}[reg], Value: v}}})
 		}
 	}
 	// lists
@@ -1009,9 +1009,9 @@ func genC03(r *Rng, n int, tier string) {
 	// payloads
 	for _, s := range payloadSamples {
 		both(&rwp.OutboundMessage{PanelTopology: &rwp.PanelTopology{Svgbase: s, Json: s}})
-		emitMsgs("d", &rwp.OutboundMessage{BurninProfile: &rwp.BurninProfile{Json: s}})
-		emitMsgs("d", &rwp.OutboundMessage{CalibrationProfile: &rwp.CalibrationProfile{Json: s}, DefaultCalibrationProfile: &rwp.CalibrationProfile{Json: s + "x"}})
-		emitMsgs("d", &rwp.OutboundMessage{ErrorMessage: &rwp.Message{Message: s}, Message: &rwp.Message{Message: s}})
+		outEmitMsgs("d", &rwp.OutboundMessage{BurninProfile: &rwp.BurninProfile{Json: s}})
+		outEmitMsgs("d", &rwp.OutboundMessage{CalibrationProfile: &rwp.CalibrationProfile{Json: s}, DefaultCalibrationProfile: &rwp.CalibrationProfile{Json: s + "x"}})
+		outEmitMsgs("d", &rwp.OutboundMessage{ErrorMessage: &rwp.Message{Message: s}, Message: &rwp.Message{Message: s}})
 	}
 	// SysStat: every float of the pool in every float field, all flags
 	for i, f := range floatPool {
@@ -1020,16 +1020,16 @@ func genC03(r *Rng, n int, tier string) {
 		s2 := randSysStat(r)
 		s2.CPUVoltage = f
 		s2.UnderVoltageNow, s2.SoftTempLimit = i%2 == 0, i%3 == 0
-		emitMsgs("d", &rwp.OutboundMessage{SysStat: s2})
+		outEmitMsgs("d", &rwp.OutboundMessage{SysStat: s2})
 	}
 	for i := 0; i < 8; i++ {
 		s := &rwp.SystemStat{}
 		f := []*bool{&s.UnderVoltageNow, &s.UnderVoltage, &s.FreqCapNow, &s.FreqCap, &s.ThrottledNow, &s.Throttled, &s.SoftTempLimitNow, &s.SoftTempLimit}
 		*f[i] = true
-		emitMsgs("d", &rwp.OutboundMessage{SysStat: s})
+		outEmitMsgs("d", &rwp.OutboundMessage{SysStat: s})
 	}
 	for _, v := range i32Pool {
-		emitMsgs("d", &rwp.OutboundMessage{SysStat: &rwp.SystemStat{CPUFreqCurrent: v, CPUFreqMin: -v, CPUFreqMax: v, MemTotal: v, MemFree: v, MemAvailable: v, MemBuffers: v, MemCached: v}})
+		outEmitMsgs("d", &rwp.OutboundMessage{SysStat: &rwp.SystemStat{CPUFreqCurrent: v, CPUFreqMin: -v, CPUFreqMax: v, MemTotal: v, MemFree: v, MemAvailable: v, MemBuffers: v, MemCached: v}})
 	}
 	// network configurations
 	for i := 0; i < 30; i++ {
@@ -1038,29 +1038,29 @@ func genC03(r *Rng, n int, tier string) {
 	both(&rwp.OutboundMessage{NetworkConfig: &rwp.NetworkConfig{}})
 	// registers outside / at the edge of the id alphabet
 	for i := 0; i < 60; i++ {
-		emitMsgs("d", &rwp.OutboundMessage{Registers: []*rwp.Register{randRegister(r, false), randRegister(r, true)}})
+		outEmitMsgs("d", &rwp.OutboundMessage{Registers: []*rwp.Register{randRegister(r, false), randRegister(r, true)}})
 	}
 	// random messages: sparse, dense, many per call
 	for i := 0; i < n; i++ {
 		switch r.Intn(6) {
 		case 0:
-			emitMsgs("d", randOutMsg(r, 10, true, true))
+			outEmitMsgs("d", randOutMsg(r, 10, true, true))
 		case 1:
-			emitMsgs("d", randOutMsg(r, 50, true, true))
+			outEmitMsgs("d", randOutMsg(r, 50, true, true))
 		case 2:
-			emitMsgs("d", randOutMsg(r, 100, true, true))
+			outEmitMsgs("d", randOutMsg(r, 100, true, true))
 		case 3:
 			k := r.Range(2, 6)
 			ms := []*rwp.OutboundMessage{}
 			for j := 0; j < k; j++ {
 				ms = append(ms, randOutMsg(r, r.Pick(10, 30, 60), true, true))
 			}
-			emitMsgs("d", ms...)
+			outEmitMsgs("d", ms...)
 		case 4:
-			emitMsgs("c", randOutMsg(r, r.Pick(10, 50, 100), true, false))
+			outEmitMsgs("c", randOutMsg(r, r.Pick(10, 50, 100), true, false))
 		case 5:
 			// values outside the ASCII-representable domain (correspondence only)
-			emitMsgs("d", randOutMsg(r, 40, false, true))
+			outEmitMsgs("d", randOutMsg(r, 40, false, true))
 		}
 	}
 }
@@ -1276,75 +1276,75 @@ func fuzzLine(r *Rng, withSys bool) string {
 func genC04(r *Rng, n int, tier string) {
 	// every flow word, every event kind with and without edge, boundary values
 	for _, w := range []string{"ping", "ack", "nack", "BSY", "RDY", "list"} {
-		emitLines(w)
+		outEmitLines(w)
 	}
 	for _, id := range []string{"0", "1", "5", "05", "255", "4294967295"} {
 		for _, k := range []string{"Down", "Up", "Press"} {
-			emitLines("HWC#" + id + "=" + k)
+			outEmitLines("HWC#" + id + "=" + k)
 			for _, e := range edgePool {
-				emitLines(fmt.Sprintf("HWC#%s.%d=%s", id, e, k))
+				outEmitLines(fmt.Sprintf("HWC#%s.%d=%s", id, e, k))
 			}
 		}
 		for _, v := range i32Pool {
-			emitLines(fmt.Sprintf("HWC#%s=Enc:%d", id, v), fmt.Sprintf("HWC#%s=Speed:%d", id, v))
+			outEmitLines(fmt.Sprintf("HWC#%s=Enc:%d", id, v), fmt.Sprintf("HWC#%s=Speed:%d", id, v))
 		}
 		for _, v := range u32Pool {
-			emitLines(fmt.Sprintf("HWC#%s=Abs:%d", id, v), fmt.Sprintf("HWC#%s=Raw:%d", id, v))
+			outEmitLines(fmt.Sprintf("HWC#%s=Abs:%d", id, v), fmt.Sprintf("HWC#%s=Raw:%d", id, v))
 		}
 	}
-	emitLines("HWC#5=Raw:123")
+	outEmitLines("HWC#5=Raw:123")
 	// every key of the key=value family with a plain value
 	for _, k := range genericKeysAll {
-		emitLines(k + "=1")
-		emitLines(k + "=abc def")
+		outEmitLines(k + "=1")
+		outEmitLines(k + "=abc def")
 	}
 	for _, v := range u32Pool {
-		emitLines(fmt.Sprintf("map=%d:%d", v, 4294967295-v))
+		outEmitLines(fmt.Sprintf("map=%d:%d", v, 4294967295-v))
 		for _, k := range []string{"_sleepTimer", "_heartBeatTimer", "DimmedGain", "_serverModeMaxClients", "_bootsCount", "_totalUptimeMin", "_sessionUptimeMin", "_screenSaverOnMin", "_bluePillReady", "_isSleeping"} {
-			emitLines(fmt.Sprintf("%s=%d", k, v))
+			outEmitLines(fmt.Sprintf("%s=%d", k, v))
 		}
 		for _, w := range []string{"MemA", "ShiftB2", "StateC", "Flag#7", "Flag#", "Mem"} {
-			emitLines(fmt.Sprintf("%s=%d", w, v))
+			outEmitLines(fmt.Sprintf("%s=%d", w, v))
 		}
 	}
 	// capability lists: every single name, the full list in the encoder's order and reversed
 	for _, c := range capNames {
-		emitLines("_support=" + c)
+		outEmitLines("_support=" + c)
 	}
-	emitLines("_support=" + strings.Join(capNames, ","))
+	outEmitLines("_support=" + strings.Join(capNames, ","))
 	rev := append([]string{}, capNames...)
 	for i, j := 0, len(rev)-1; i < j; i, j = i+1, j-1 {
 		rev[i], rev[j] = rev[j], rev[i]
 	}
-	emitLines("_support=" + strings.Join(rev, ","))
+	outEmitLines("_support=" + strings.Join(rev, ","))
 	// SysStat: every key alone
 	for _, k := range sysKeysU {
-		emitLines("SysStat=" + k + ":55")
+		outEmitLines("SysStat=" + k + ":55")
 	}
 	for _, k := range sysKeysF {
 		for _, f := range floatPool {
-			emitLines("SysStat=" + k + ":" + strconv.FormatFloat(float64(f), 'f', 2, 32))
+			outEmitLines("SysStat=" + k + ":" + strconv.FormatFloat(float64(f), 'f', 2, 32))
 		}
 	}
 	for _, k := range sysKeysI {
-		emitLines("SysStat="+k+":-2147483648", "SysStat="+k+":2147483647:")
+		outEmitLines("SysStat="+k+":-2147483648", "SysStat="+k+":2147483647:")
 	}
 	for _, k := range sysKeysB {
-		emitLines("SysStat="+k+":1", "SysStat="+k+":0")
+		outEmitLines("SysStat="+k+":1", "SysStat="+k+":0")
 	}
 	// non-grammar lines, near-miss lines (one per record)
 	for _, l := range nonGrammarSamples {
-		emitLines(l)
+		outEmitLines(l)
 	}
 	for _, l := range nearMissSamples {
-		emitLines(l)
+		outEmitLines(l)
 	}
 	for i := 0; i < n; i++ {
 		switch r.Intn(6) {
 		case 5:
-			emitLines(fuzzLine(r, false))
+			outEmitLines(fuzzLine(r, false))
 		case 0, 1:
-			emitLines(grammarLine(r))
+			outEmitLines(grammarLine(r))
 		case 2, 3:
 			// a sequence of well-formed lines with non-grammar lines interleaved
 			k := r.Range(2, 8)
@@ -1356,9 +1356,9 @@ func genC04(r *Rng, n int, tier string) {
 					ls = append(ls, grammarLine(r))
 				}
 			}
-			emitLines(ls...)
+			outEmitLines(ls...)
 		case 4:
-			emitLines(nonGrammarLine(r))
+			outEmitLines(nonGrammarLine(r))
 		}
 	}
 }
@@ -1405,19 +1405,19 @@ var hostileLines = []string{
 
 func genC06out(r *Rng, n int, tier string) {
 	for _, l := range hostileLines {
-		emitLines(l)
+		outEmitLines(l)
 	}
 	for _, l := range nearMissSamples {
-		emitLines(l)
+		outEmitLines(l)
 	}
 	// hostile messages: NaN / Inf floats, LF and arbitrary bytes in every string field, enums and integers anywhere
 	for _, f := range []float32{float32(math.NaN()), float32(math.Inf(1)), float32(math.Inf(-1)), float32(math.Copysign(0, -1))} {
-		emitMsgs("d", &rwp.OutboundMessage{SysStat: &rwp.SystemStat{CPUTemp: f, ExtTemp: f, CPUVoltage: f}})
-		emitMsgs("c", &rwp.OutboundMessage{SysStat: &rwp.SystemStat{CPUTemp: f, ExtTemp: f, CPUVoltage: f}})
+		outEmitMsgs("d", &rwp.OutboundMessage{SysStat: &rwp.SystemStat{CPUTemp: f, ExtTemp: f, CPUVoltage: f}})
+		outEmitMsgs("c", &rwp.OutboundMessage{SysStat: &rwp.SystemStat{CPUTemp: f, ExtTemp: f, CPUVoltage: f}})
 	}
-	emitMsgs("d")
-	emitMsgs("d", &rwp.OutboundMessage{}, &rwp.OutboundMessage{})
-	emitMsgs("d", &rwp.OutboundMessage{Events: []*rwp.HWCEvent{{}}, Registers: []*rwp.Register{{}}, PanelInfo: &rwp.PanelInfo{RawPanelSupport: &rwp.RawPanelSupport{}}, PanelTopology: &rwp.PanelTopology{}, Connections: &rwp.Connections{}, RunTimeStats: &rwp.RunTimeStats{}, SysStat: &rwp.SystemStat{}, NetworkConfig: &rwp.NetworkConfig{}, EnvironmentalHealth: &rwp.Environment{}, HWCavailability: map[uint32]uint32{}})
+	outEmitMsgs("d")
+	outEmitMsgs("d", &rwp.OutboundMessage{}, &rwp.OutboundMessage{})
+	outEmitMsgs("d", &rwp.OutboundMessage{Events: []*rwp.HWCEvent{{}}, Registers: []*rwp.Register{{}}, PanelInfo: &rwp.PanelInfo{RawPanelSupport: &rwp.RawPanelSupport{}}, PanelTopology: &rwp.PanelTopology{}, Connections: &rwp.Connections{}, RunTimeStats: &rwp.RunTimeStats{}, SysStat: &rwp.SystemStat{}, NetworkConfig: &rwp.NetworkConfig{}, EnvironmentalHealth: &rwp.Environment{}, HWCavailability: map[uint32]uint32{}})
 	hostile := func() string {
 		switch r.Intn(5) {
 		case 0:
@@ -1452,7 +1452,7 @@ func genC06out(r *Rng, n int, tier string) {
 					ls = append(ls, mutateLine(r, grammarLine(r)))
 				}
 			}
-			emitLines(ls...)
+			outEmitLines(ls...)
 		case 2:
 			m := randOutMsg(r, 50, false, true)
 			if m.PanelInfo != nil {
@@ -1472,7 +1472,7 @@ func genC06out(r *Rng, n int, tier string) {
 			if m.NetworkConfig != nil {
 				m.NetworkConfig.Address = hostile()
 			}
-			emitMsgs("d", m)
+			outEmitMsgs("d", m)
 		case 3, 4:
 			// proto.Unmarshal of mutated wire bytes of a random message / of random bytes
 			var b []byte
@@ -1503,7 +1503,7 @@ func genC06out(r *Rng, n int, tier string) {
 					ok = ok && e != nil
 				}
 				if ok {
-					emitMsgs("d", msg)
+					outEmitMsgs("d", msg)
 				}
 			}
 		case 5:
@@ -1512,7 +1512,7 @@ func genC06out(r *Rng, n int, tier string) {
 			for j := 0; j < k; j++ {
 				ms = append(ms, randOutMsg(r, 30, false, true))
 			}
-			emitMsgs("d", ms...)
+			outEmitMsgs("d", ms...)
 		}
 	}
 }
